@@ -4,6 +4,8 @@ Oracles: reference kernels written from the documented formulas (vlib/refkernels
 arithmetic), eigenvalues of the implementation's own matrices, 5-point stencils of build_covariance
 with Richardson error control, and concatenation of independently built components for composites.
 """
+import warnings
+
 import numpy as np
 from hypothesis import strategies as st
 
@@ -25,6 +27,25 @@ def setup(case):
     spec = case["kernel"]
     cov = rk.build_kernel(spec)
     try:
+        pre = case.get("earlier_data")
+        if pre:
+            # the same kernel object served another (smaller / larger) data set before - as it does inside GpOptimiser, which hands
+            # one kernel object to every regressor it fits - and was asked for bounds and a matrix there
+            n, d = X.shape
+            g = np.random.Generator(np.random.PCG64(int(pre["seed"])))
+            spread = np.where(X.std(axis=0) > 0, X.std(axis=0), 1.0)[None, :]
+            if pre["dn"] < 0:
+                Xe = X[: max(1, n + pre["dn"])]
+            elif pre["dn"] == 0:
+                Xe = X + spread * g.normal(size=(n, d))     # same size, different points
+            else:
+                Xe = np.vstack([X, X.mean(axis=0)[None, :] + spread * g.normal(size=(pre["dn"], d))])
+            cov.pass_spatial_data(Xe)
+            with np.errstate(all="ignore"), warnings.catch_warnings():
+                warnings.simplefilter("ignore")
+                cov.estimate_hyperpar_bounds(g.normal(size=Xe.shape[0]))
+                if Xe.shape[0] == n or not rk.has(spec, "Hetero"):
+                    cov.build_covariance(gc.theta_from_unit(spec, case, X, ys))
         cov.pass_spatial_data(X)
     except Exception as e:
         raise Violation(f"pass_spatial_data:{classify(spec, case['d'])}", f"{type(e).__name__}: {e}")
@@ -57,6 +78,7 @@ def events(case, ctx):
     ctx.event(f"d={case['d']}")
     ctx.event("depth=%d" % rk.depth(spec))
     ctx.event("x_style=" + case["x_style"])
+    ctx.event("kernel-object=" + ("served-other-data-before" if case.get("earlier_data") else "new"))
 
 
 def call(cov, U, V, theta, spec, d):
@@ -98,6 +120,8 @@ def body_value(case, ctx):
         B = np.asarray(cov.build_covariance(theta), dtype=float)
     refB = ref + np.diag(rk.ref_diag(spec, X, theta))
     sB = max(np.max(np.abs(refB)), 1e-300)
+    if B.shape != (n, n):
+        raise Violation(f"builder:{cls}", f"{rk.describe(spec)}: build_covariance has shape {B.shape} for {n} points")
     errB = np.max(np.abs(B - refB))
     errB2 = np.max(np.abs(B - (Kxx + np.diag(rk.ref_diag(spec, X, theta)))))
     ctx.ratio("builder", max(errB, errB2), 1e-12 * sB)
@@ -306,12 +330,20 @@ def body_means(case, ctx):
     ctx.event(f"d={d}")
 
 
+@st.composite
+def _with_earlier_data(draw, base):
+    case = draw(base)
+    if draw(st.integers(0, 3)) == 0:
+        case["earlier_data"] = {"dn": draw(st.sampled_from([-3, -1, 0, 1, 2, 5])), "seed": draw(st.integers(0, 10**6))}
+    return case
+
+
 def problems(tier):
-    return gc.gp_problems(max_n=15, max_d=3, max_m=4, min_n=1)
+    return _with_earlier_data(gc.gp_problems(max_n=15, max_d=3, max_m=4, min_n=1))
 
 
 def problems2(tier):
-    return gc.gp_problems(max_n=10, max_d=3, max_m=1, min_n=2)
+    return _with_earlier_data(gc.gp_problems(max_n=10, max_d=3, max_m=1, min_n=2))
 
 
 def problems3(tier):
